@@ -11,7 +11,7 @@
        argument tuple plus alpha, so it is sound for any constructor reading nothing else, and a changed alpha misses.
    Validated, not proved: that the real caches are instances of this table (hit/miss behaviour, keys), that the real
    functions satisfy the premises on the explored runs (the harness shadows every cached entry point and recomputes). *)
-From PV Require Import Model.Memo Model.CaseUtil Proofs.MemoProofs.
+From PV Require Import Model.Memo Model.CaseUtil Proofs.MemoProofs Model.Marginal Proofs.MarginalProofs.
 Open Scope nat_scope.
 
 Theorem C14_memo_refines :
@@ -62,6 +62,23 @@ Proof.
   intros e a e' b H. apply (logS_key_sound Arr digest Hd V g Hg). exact H.
 Qed.
 Print Assumptions C14_logS_cache_refines.
+
+(* ... and for the EXACT-arithmetic children recursion of C02 (compute_log_S = any function F of the folded
+   convolution D of the children's vectors) the permutation-invariance premise is C02_D_perm_invariant, so only the
+   digest's injectivity remains as a premise *)
+Theorem C14_logS_cache_refines_exact_recursion :
+  forall (digest : Marginal.vec -> nat), (forall x y, digest x = digest y -> x = y) ->
+  forall (G : nat) (V : Type) (F : Marginal.vec -> V)
+         (keqb : list nat -> list nat -> bool), (forall a b, keqb a b = true <-> a = b) ->
+  forall cap h,
+  run unit (list Marginal.vec) (list nat) V (fun _ cs => F (Marginal.D G cs)) (fun _ => logS_key Marginal.vec digest) keqb cap h []
+  = spec unit (list Marginal.vec) V (fun _ cs => F (Marginal.D G cs)) h.
+Proof.
+  intros digest Hd G V F keqb Hk cap h.
+  apply (C14_logS_cache_refines Marginal.vec digest Hd V (fun cs => F (Marginal.D G cs))); [|exact Hk].
+  intros l l' HP. f_equal. apply D_perm. exact HP.
+Qed.
+Print Assumptions C14_logS_cache_refines_exact_recursion.
 
 (* ---- refuted: an unsound key ------------------------------------------------------------------------ *)
 (* a key that forgets part of the argument: the second call hits and returns the first call's value *)
